@@ -22,7 +22,7 @@ from harness.common import prove, BASE_TRUST, LEAN, run_driver, h2f, LeanError
 from harness import lang, pipeline
 from harness.translate import fnrules
 
-TH = [-2.0, -1.0, -0.5, -0.0, 0.0, 0.5, 1.0, 1.5, 2.0, 3.0]
+TH = [-2.0, -1.0, -0.5, -0.0, 0.0, 0.5, 1.0, 1.5, 2.0, 3.0, 1e20, -1e20, 1e6, 1e-9]     # incl. "no limit" caps and tiny values
 
 
 def doc(fn, *a):
